@@ -13,7 +13,7 @@ import (
 
 func genC04(w *World, res *CheckResult) {
 	// (1) checker.Check and the configuration functions run outside any recover
-	for _, n := range []string{"checker.Check", "conf.Config.Check", "conf.Config.ConstExpr", "checker.visitor.ClosureNode"} {
+	for _, n := range []string{"checker.Check", "conf.Config.Check", "conf.Config.ConstExpr", "checker.visitor.ClosureNode", "checker.visitor.FunctionNode"} {
 		fn, ct := w.Func(n), w.Contracts[n]
 		if fn == nil {
 			res.Obls = append(res.Obls, missingObl(n+"/exists", "function not found"))
@@ -71,6 +71,51 @@ func genC04(w *World, res *CheckResult) {
 		res.Functions = append(res.Functions, "checker.init")
 	} else {
 		res.Obls = append(res.Obls, missingObl("checker.init/exists", "initialiser or contract missing"))
+	}
+	// (1g) option closures run in Compile's option loop, before any recovering stage: expr.Env's closure, for
+	// every environment value (nil included)
+	for _, n := range []string{"expr.Env$1"} {
+		fn := w.Func(n)
+		if fn == nil {
+			res.Obls = append(res.Obls, missingObl(n+"/exists", "function not found"))
+			continue
+		}
+		e := NewExec(w)
+		e.SafeMode = func(f *ssa.Function) string {
+			if f == fn {
+				return "nopanic"
+			}
+			return "panics"
+		}
+		st := NewState()
+		args := e.symbolicArgs(st, fn)
+		for _, a := range args {
+			if len(a.L) == 1 && a.L[0].Sort == SLoc {
+				st.Assume(Not(Eq(a.One(), NilLoc))) // the *conf.Config handed to every option
+			}
+		}
+		var bnd []*Value
+		e.paramMode = true
+		for _, fv := range fn.FreeVars {
+			bnd = append(bnd, e.havocValue(st, fv.Type(), "fv_"+fv.Name()))
+		}
+		e.paramMode = false
+		func() {
+			defer func() {
+				if r := recover(); r != nil {
+					res.Obls = append(res.Obls, missingObl(n+"/safe:generator", fmt.Sprint(r)))
+				}
+			}()
+			e.call(st, fn, args, bnd, 0, nil, func(*State, []*Value) {}, func(ps *State, pv *Term) {
+				// panics raised inside callees (CreateTypesTable works through reflect on the caller's value)
+			})
+		}()
+		for _, o := range e.obls {
+			if strings.Contains(o.Name, "/safe:") {
+				res.Obls = append(res.Obls, o)
+			}
+		}
+		res.Functions = append(res.Functions, n)
 	}
 	// (1b) the optimizer's membership rewrites run outside any recover (expr.Compile calls optimizer.Optimize directly)
 	{
